@@ -39,12 +39,16 @@ func allHistCases() []histCase {
 
 // follow makes m behave like a running follower: it watches the PD leader (so that its own
 // dc-location check takes the follower branch).
-func follow(ctx context.Context, m *tsow.Member) {
+func follow(ctx context.Context, m *tsow.Member) chan struct{} {
+	done := make(chan struct{})
 	leader, rev, _ := m.M.CheckLeader()
-	if leader != nil {
-		go m.M.WatchLeader(ctx, leader, rev)
-		time.Sleep(10 * time.Millisecond)
+	if leader == nil {
+		close(done)
+		return done
 	}
+	go func() { defer close(done); m.M.WatchLeader(ctx, leader, rev) }()
+	time.Sleep(10 * time.Millisecond)
+	return done
 }
 
 func suffixHistory(r *ev.Run, e *etcdx.Etcd, rng *rand.Rand, n int, hc histCase) bool {
@@ -88,7 +92,7 @@ func suffixHistory(r *ev.Run, e *etcdx.Etcd, rng *rand.Rand, n int, hc histCase)
 		check("join " + dc)
 	}
 	// a follower that has been following all along (transfer target)
-	follow(ctx, w.Members[3])
+	watching := follow(ctx, w.Members[3])
 	w.Members[3].AM.ClusterDCLocationChecker()
 	// (2) one dc leaves: the members API deletes the member's dc-location key under the leader's txn
 	gone, goneDC := 2, "dc-3"
@@ -106,6 +110,13 @@ func suffixHistory(r *ev.Run, e *etcdx.Etcd, rng *rand.Rand, n int, hc histCase)
 	case "transfer":
 		L.Resign()
 		L = w.Members[3]
+		// as in a server's leader loop, the follower campaigns only after its watch of the old leader ended
+		select {
+		case <-watching:
+		case <-time.After(10 * time.Second):
+			addonSkip(r, "history: the follower's leader watch did not end")
+			return false
+		}
 		if err := L.Campaign(true); err != nil {
 			addonSkip(r, "history campaign: %v", err)
 			return false
@@ -173,6 +184,7 @@ func suffixHistory(r *ev.Run, e *etcdx.Etcd, rng *rand.Rand, n int, hc histCase)
 	for _, dc := range []string{"dc-1", "dc-2", "dc-3", "dc-4"} {
 		if len(sufOf[dc]) == 0 {
 			r.Count("addon_history_dc_without_suffix", 1) // liveness only
+			r.Count(fmt.Sprintf("addon_history_no_suffix_%s_%s_%s_%s", hc.leave, hc.leader, hc.order, dc), 1)
 		}
 	}
 	done := map[string]bool{}
